@@ -38,17 +38,24 @@ def Consistent (a : System) (t : Nat) (d : List Sym) : Prop := ∃ c, WfInter a.
 
 /-- What a linear solver must do on consistent right-hand sides: answer exactly when the system
 is determined, and then with a solution. Everything about decoding is proved for an arbitrary
-solver meeting this specification. -/
+solver meeting this specification. The systems are those of the codec: `sp` are the parameters of
+some block size `k` (`sysParams k = some sp`) and the internal symbol ids are 32-bit values (the
+code's `u32`); every use in the codec supplies both. -/
 structure SolverSpec (sv : Solver) : Prop where
-  full_solved : ∀ sp isis a t d c, fullSystem sp isis = some a → 0 < t → WfRhs a t d → Consistent a t d →
+  full_solved : ∀ k sp isis a t d c, sysParams k = some sp → (∀ x ∈ isis, x < 2 ^ 32) →
+    fullSystem sp isis = some a → 0 < t → WfRhs a t d → Consistent a t d →
     sv.full sp isis d = .solved c → WfInter a.l t c ∧ a.apply c t = d ∧ Determined a
-  full_singular : ∀ sp isis a t d, fullSystem sp isis = some a → 0 < t → WfRhs a t d → Consistent a t d →
+  full_singular : ∀ k sp isis a t d, sysParams k = some sp → (∀ x ∈ isis, x < 2 ^ 32) →
+    fullSystem sp isis = some a → 0 < t → WfRhs a t d → Consistent a t d →
     sv.full sp isis d = .singular → ¬ Determined a
-  full_answers : ∀ sp isis a t d, fullSystem sp isis = some a → 0 < t → WfRhs a t d → Consistent a t d →
+  full_answers : ∀ k sp isis a t d, sysParams k = some sp → (∀ x ∈ isis, x < 2 ^ 32) →
+    fullSystem sp isis = some a → 0 < t → WfRhs a t d → Consistent a t d →
     sv.full sp isis d ≠ .oracleError
-  bin_solved : ∀ sp isis a t d c, binSystem sp isis = some a → 0 < t → WfRhs a t d → Consistent a t d →
+  bin_solved : ∀ k sp isis a t d c, sysParams k = some sp → (∀ x ∈ isis, x < 2 ^ 32) →
+    binSystem sp isis = some a → 0 < t → WfRhs a t d → Consistent a t d →
     sv.noHdpc sp isis d = .solved c → WfInter a.l t c ∧ a.apply c t = d ∧ Determined a
-  bin_answers : ∀ sp isis a t d, binSystem sp isis = some a → 0 < t → WfRhs a t d → Consistent a t d →
+  bin_answers : ∀ k sp isis a t d, sysParams k = some sp → (∀ x ∈ isis, x < 2 ^ 32) →
+    binSystem sp isis = some a → 0 < t → WfRhs a t d → Consistent a t d →
     sv.noHdpc sp isis d ≠ .oracleError
 
 /-- pointwise operations on symbol vectors -/
